@@ -817,6 +817,9 @@ func (d *Decoder) DecodePackedFloat32() ([]float32, error) { //nolint: dupl // F
 	}
 	d.offset += n
 	packedDataStart := d.offset
+	if l > uint64(len(d.p)-d.offset) {
+		return nil, io.ErrUnexpectedEOF
+	}
 	res = make([]float32, 0, l/4)
 	for nRead < l {
 		if d.offset >= len(d.p) {
